@@ -754,7 +754,7 @@ pub fn literal_slot(kinds: &[Kind]) -> Vec<T> {
 /// parenthesised.
 pub fn punctuation_string_trees(thorough: bool) -> Vec<T> {
     let pairs: Vec<(&str, &str)> = vec![
-        ("(", ")"), (")", "("), ("[", "]"), ("]", "["), ("{", "}"), ("}", "{"), ("\"", "\""), ("'", "'"), ("//", "x"), (",", ","), ("=>", "=>"), ("-", "-"), ("((", "))"),
+        ("(", ")"), (")", "("), ("[", "]"), ("]", "["), ("{", "}"), ("}", "{"), ("\"", "\""), ("'", "'"), ("//", "x"), (",", ","), ("=>", "=>"), ("-", "-"), ("((", "))"), ("\r\n", "\r"), ("a\nb", "\r\n\r\n"),
     ];
     let group = |variant: usize, s: &str| -> T {
         let st = T::Str(s.to_string());
